@@ -148,12 +148,13 @@ func siteGuarded(c *FCFG, call *ast.CallExpr) (bool, string) {
 	// candidates: all X appearing as `X < 0` conditions
 	cands := map[string]bool{}
 	for _, b := range c.G.Blocks {
-		if cond := blockCond(b); cond != nil {
-			core, _ := stripNot(cond)
-			if be, ok := core.(*ast.BinaryExpr); ok && be.Op == token.LSS {
-				if v, ok := constInt(c.Info, be.Y); ok && v == 0 {
-					if name, ok := depthExprName(be.X); ok {
-						cands[name] = true
+		for si := range b.Succs {
+			for _, a := range edgeAtoms(b, si) {
+				if be, ok := a.E.(*ast.BinaryExpr); ok && be.Op == token.LSS {
+					if v, ok := constInt(c.Info, be.Y); ok && v == 0 {
+						if name, ok := depthExprName(be.X); ok {
+							cands[name] = true
+						}
 					}
 				}
 			}
